@@ -1,13 +1,13 @@
 (* Property C03: progress -- a run that can finish does finish; failures and windows never wedge it.
    Only property theorems here. Model R, level 3.  Proved: deadlock freedom of every admissible tree
-   (C03_progress) and the facts behind it: no slot leaks, no wake-up is lost, eligible jobs are
-   started, switching outcomes between return and raise preserves completion, the timeout path is
-   taken at the deadline.  Not proved: a bound on the length of executions (livelock freedom); the
-   check looks for deadlocks and livelocks on the implementation under the virtual-time loop, on
-   trees the extracted model classifies as admissible.
+   (C03_progress), finiteness of every execution (C03_bounded), and the facts behind them: no slot
+   leaks, no wake-up is lost, eligible jobs are started, switching outcomes between return and raise
+   preserves completion, the timeout path is taken at the deadline.  The check looks for deadlocks
+   and livelocks on the implementation under the virtual-time loop, on trees the extracted model
+   classifies as admissible.
    C03_failures_never_wedge depends on the standard-library axiom functional_extensionality_dep. *)
 From AJ Require Import Common.Util Run.RModel Run.RFacts Run.RFacts2 Run.RInv Run.RMon Run.RProps2 Run.RProps3
-  Run.RWin Run.RProps4 Run.RFlip Run.RShut1 Run.RShut2 Run.RTime Run.RAdm Run.RInvP Run.RProgA Run.RProgS Run.RProg Props.RExample.
+  Run.RWin Run.RProps4 Run.RFlip Run.RShut1 Run.RShut2 Run.RTime Run.RAdm Run.RInvP Run.RProgA Run.RProgS Run.RProg Run.RTerm Props.RExample.
 
 (* however many non-critical jobs raise: complete runs stay complete when outcomes are switched *)
 Theorem C03_failures_never_wedge : forall F lvl c h, flippable F c ->
@@ -69,8 +69,38 @@ Theorem C03_no_dead_state : forall c h s, wf c = true -> admissible c = true -> 
 Proof. exact dead_state_is_final. Qed.
 Print Assumptions C03_no_dead_state.
 
-(* NOT PROVED: a bound on the length of executions (no livelock).  The check detects a livelock on
-   the implementation as a virtual-time horizon. *)
+(* TERMINATION.  Every execution is finite: the number of events other than pure observations
+   (EPoll), the clock moving on after the end of the run (EGrace) and repeated explicit shutdown()
+   calls of the environment on the root after the run (ESdStart 0, each a no-op: C03_late_shutdown_noop)
+   is bounded by a function of the tree alone.  The potential function sums, per job, handler, run
+   and shutdown activity, the stages and deadlines still ahead, plus a budget of cancellations that
+   can still reach each task along its chain of ancestors. *)
+Theorem C03_bounded : exists B : cfg -> nat,
+  forall c h s, wf c = true -> Reach 3 c h s -> length (filter weighty h) <= B c.
+Proof. exact bounded_executions. Qed.
+Print Assumptions C03_bounded.
+
+Theorem C03_every_step_pays : forall c h s e s', wf c = true -> Reach 3 c h s -> step 3 c s e = Some s' ->
+  rho c s' <= rho c s /\ (weighty e = true -> rho c s' < rho c s).
+Proof. exact rho_decreases. Qed.
+Print Assumptions C03_every_step_pays.
+
+(* the exclusion of ESdStart 0 is necessary: the environment may call shutdown() again and again *)
+Theorem C03_unbounded_root_shutdown : ~ exists B : cfg -> nat,
+  forall c h s, wf c = true -> Reach 3 c h s -> length (filter weighty0 h) <= B c.
+Proof. exact unbounded_root_shutdown. Qed.
+Print Assumptions C03_unbounded_root_shutdown.
+
+Theorem C03_late_shutdown_noop : forall c s o s', wf c = true -> step 3 c s (ESdStart 0 o) = Some s' ->
+  did (Sd s 0) = true ->
+  Jb s' = Jb s /\ Rn s' = Rn s /\ now s' = now s /\ (forall m, Sd s' m = Sd s m) /\
+  (forall x, Hd s' x = if Nat.eqb x 0 then mkHst HDone false None else Hd s x).
+Proof. exact late_root_shutdown_noop. Qed.
+Print Assumptions C03_late_shutdown_noop.
+
+(* Together: from any reachable state of an admissible tree the run can always take a step
+   (C03_progress) and can take only boundedly many (C03_bounded): every maximal execution is finite
+   and ends with the top-level run over -- run() terminates. *)
 
 Example C03_nonvacuous :
   admissible ex_cfg = true /\ completes 3 ex_cfg ex_hist = true /\ j_window (jc ex_cfg 0) = 2 /\
